@@ -70,6 +70,7 @@ class Builder(object):
         # where the term occurs (an operator object is a value: using it twice must equal using two equal ones)
         self.share = share
         self.cache = {}
+        self.salt = 0
         self.log = log
         self.dead = dead        # list receiving dead letters of error routers
         self.mux = mux
@@ -77,9 +78,13 @@ class Builder(object):
         self.dead_subs = []     # every dead-letter subscription function (performed again before a re-subscription)
         self.dead_disp = []     # disposables of the dead-letter subscriptions made so far
 
-    def pipe(self, term, path=''):
+    def pipe(self, term, path='', start=0):
+        if path == '' and self.salt == 0:
+            import zlib
+            import json as _json
+            self.salt = zlib.crc32(_json.dumps(term).encode()) % 7     # deterministic per pipeline: varies the seed-factory flavour
         ops = []
-        idx = 0
+        idx = start
         for st in term:
             w = self.WIDTH.get(st[0], 1)
             here = '%s/%d' % (path, idx + w - 1)      # label of the last primitive stage of this operator
@@ -112,7 +117,16 @@ class Builder(object):
             seed = dec(st[2])
             term = fn1(st[4]) if st[4] is not None else None
             if isinstance(seed, list) and st[5:] == ['factory']:
-                return [rs.ops.scan(fn2(st[1]), seed=list, reduce=st[3], terminator=term)]
+                # a seed FACTORY: the class itself, a functools.partial, or an object with __call__ (all are callable(seed))
+                import functools
+                import zlib
+                import json as _json
+
+                class ListFactory(object):
+                    def __call__(self):
+                        return []
+                fac = [list, functools.partial(list), ListFactory()][(zlib.crc32(_json.dumps(st).encode()) + self.salt) % 3]
+                return [rs.ops.scan(fn2(st[1]), seed=fac, reduce=st[3], terminator=term)]
             return [rs.ops.scan(fn2(st[1]), seed=seed, reduce=st[3], terminator=term)]
         if n == 'count':
             return [rs.ops.count(reduce=st[1])]
@@ -255,7 +269,7 @@ def run_prelude(obs, source, prelude):
             pass
 
 
-def run_mux(term, items, bounds=False, prelude=None, share=False):
+def run_mux(term, items, bounds=False, prelude=None, share=False, two_stores=None):
     """Real run of `with_memory_store(pipeline)` on a plain source driven item by item.
     Returns chunks [subscription, item 0.., completion] of outputs as the model encodes them,
     boundary logs, dead letters.  With `prelude`, the same observable object has been subscribed once
@@ -263,10 +277,21 @@ def run_mux(term, items, bounds=False, prelude=None, share=False):
     log = {} if bounds else None
     dead = []
     b = Builder(log=log, dead=dead, share=share)
-    ops = b.pipe(term)
+    if two_stores:
+        # the pipeline cut in two, each half under its own with_memory_store, both inside one multiplex: the events that leave the
+        # first store enter the second one (which must bind them to ITS store)
+        k = two_stores
+        off = sum(Builder.WIDTH.get(st[0], 1) for st in term[:k])
+        a, c = b.pipe(term[:k]), b.pipe(term[k:], start=off)
+        ops = None
+        wrap = rs.ops.multiplex(rx.pipe(rs.state.with_memory_store(pipeline=a or [rs.ops.identity()]),
+                                        rs.state.with_memory_store(pipeline=c or [rs.ops.identity()])))
+    else:
+        ops = b.pipe(term)
+        wrap = rs.state.with_memory_store(pipeline=ops)
     if prelude is not None:
         rsrc = ResubSource()
-        obs = rsrc.observable.pipe(rs.state.with_memory_store(pipeline=ops))
+        obs = rsrc.observable.pipe(wrap)
         for sub in b.late:
             sub()
         run_prelude(obs, rsrc, prelude)
@@ -298,7 +323,7 @@ def run_mux(term, items, bounds=False, prelude=None, share=False):
         src = rsrc.subject or Subject()
     else:
         src = Subject()
-        src.pipe(rs.state.with_memory_store(pipeline=ops)).subscribe(
+        src.pipe(wrap).subscribe(
             on_next=on_next, on_error=on_error, on_completed=on_completed)
     for sub in b.late:
         sub()
